@@ -1,0 +1,689 @@
+//! Verification facade. Compiled only with `--cfg transparencies_stretto_verif`.
+//!
+//! Exposes the crate-private components (Bloom filter, count-min sketch, TinyLFU,
+//! sampled LFU policy, expiration map, sharded store, cache internals) to an external
+//! harness, a virtual clock for `ttl::Time`, an observation log for choices the
+//! implementation makes internally (sample order, sweep order), and "parked" background
+//! workers that the harness steps explicitly instead of letting them run on threads.
+#![allow(missing_docs, dead_code, clippy::type_complexity)]
+
+use std::sync::atomic::{AtomicBool, AtomicU64, Ordering};
+use std::sync::Mutex as StdMutex;
+
+// ---------------------------------------------------------------------------------------
+// virtual clock
+// ---------------------------------------------------------------------------------------
+
+/// Drop-in replacement for the parts of `std::time::SystemTime` that `ttl.rs` uses.
+pub mod clock {
+    use super::*;
+    use std::time::Duration;
+
+    static MANUAL: AtomicBool = AtomicBool::new(false);
+    static NOW_NS: AtomicU64 = AtomicU64::new(0);
+
+    /// Switch to the manual clock, starting at `ns` nanoseconds after the epoch.
+    pub fn set_manual(ns: u64) {
+        NOW_NS.store(ns, Ordering::SeqCst);
+        MANUAL.store(true, Ordering::SeqCst);
+    }
+
+    /// Back to the system clock.
+    pub fn set_real() {
+        MANUAL.store(false, Ordering::SeqCst);
+    }
+
+    /// Advance the manual clock.
+    pub fn advance(ns: u64) {
+        NOW_NS.fetch_add(ns, Ordering::SeqCst);
+    }
+
+    /// Current manual time in ns.
+    pub fn manual_now() -> u64 {
+        NOW_NS.load(Ordering::SeqCst)
+    }
+
+    #[derive(Copy, Clone, Eq, PartialEq, Ord, PartialOrd, Hash, Debug)]
+    pub struct SystemTime(std::time::SystemTime);
+
+    pub const UNIX_EPOCH: SystemTime = SystemTime(std::time::UNIX_EPOCH);
+
+    impl SystemTime {
+        pub fn now() -> Self {
+            if MANUAL.load(Ordering::SeqCst) {
+                SystemTime(
+                    std::time::UNIX_EPOCH + Duration::from_nanos(NOW_NS.load(Ordering::SeqCst)),
+                )
+            } else {
+                SystemTime(std::time::SystemTime::now())
+            }
+        }
+
+        pub fn duration_since(
+            &self,
+            earlier: SystemTime,
+        ) -> Result<Duration, std::time::SystemTimeError> {
+            self.0.duration_since(earlier.0)
+        }
+
+        pub fn elapsed(&self) -> Result<Duration, std::time::SystemTimeError> {
+            SystemTime::now().0.duration_since(self.0)
+        }
+    }
+}
+
+// ---------------------------------------------------------------------------------------
+// observation log
+// ---------------------------------------------------------------------------------------
+
+/// Internal choices of the implementation that the model takes as oracle inputs.
+#[derive(Clone, Debug)]
+pub enum Obs {
+    /// `policy.add` entered its eviction loop: estimate of the incoming key.
+    AddEvictBegin { key: u64, cost: i64, inc_hits: i64 },
+    /// one iteration of the eviction loop: sample after refill with the estimate of each entry.
+    AddSample { sample: Vec<(u64, i64, i64)> },
+    /// the sweep looked at this key of a due bucket.
+    SweepKey { key: u64, conflict: u64 },
+}
+
+static OBS_ON: AtomicBool = AtomicBool::new(false);
+static OBS: StdMutex<Vec<Obs>> = StdMutex::new(Vec::new());
+
+pub fn obs_enable(on: bool) {
+    OBS_ON.store(on, Ordering::SeqCst);
+}
+
+pub(crate) fn obs_on() -> bool {
+    OBS_ON.load(Ordering::Relaxed)
+}
+
+pub(crate) fn obs(e: Obs) {
+    if obs_on() {
+        OBS.lock().unwrap().push(e);
+    }
+}
+
+pub fn obs_drain() -> Vec<Obs> {
+    std::mem::take(&mut *OBS.lock().unwrap())
+}
+
+// ---------------------------------------------------------------------------------------
+// component facades
+// ---------------------------------------------------------------------------------------
+
+/// `bbloom::Bloom`
+pub struct VBloom(pub(crate) crate::bbloom::Bloom);
+
+impl VBloom {
+    pub fn new(cap: usize, fp: f64) -> Self {
+        VBloom(crate::bbloom::Bloom::new(cap, fp))
+    }
+    pub fn add(&mut self, h: u64) {
+        self.0.add(h)
+    }
+    pub fn contains(&self, h: u64) -> bool {
+        self.0.contains(h)
+    }
+    pub fn contains_or_add(&mut self, h: u64) -> bool {
+        self.0.contains_or_add(h)
+    }
+    pub fn reset(&mut self) {
+        self.0.reset()
+    }
+    pub fn clear(&mut self) {
+        self.0.clear()
+    }
+    pub fn set(&mut self, idx: usize) {
+        self.0.set(idx)
+    }
+    pub fn is_set(&self, idx: usize) -> bool {
+        self.0.is_set(idx)
+    }
+    pub fn words(&self) -> Vec<u64> {
+        self.0.verif_words()
+    }
+    /// (size_exp, size mask, set_locs, shift)
+    pub fn params(&self) -> (u64, u64, u64, u64) {
+        self.0.verif_params()
+    }
+}
+
+/// `sketch::CountMinRow`
+pub struct VRow(pub(crate) crate::sketch::CountMinRow);
+
+impl VRow {
+    pub fn new(width: u64) -> Self {
+        VRow(crate::sketch::CountMinRow::new(width))
+    }
+    pub fn from_bytes(bytes: &[u8]) -> Self {
+        VRow(crate::sketch::CountMinRow::verif_from_bytes(bytes))
+    }
+    pub fn get(&self, i: u64) -> u8 {
+        self.0.get(i)
+    }
+    pub fn increment(&mut self, i: u64) {
+        self.0.increment(i)
+    }
+    pub fn reset(&mut self) {
+        self.0.reset()
+    }
+    pub fn clear(&mut self) {
+        self.0.clear()
+    }
+    pub fn bytes(&self) -> Vec<u8> {
+        self.0.verif_bytes()
+    }
+}
+
+/// `sketch::CountMinSketch`
+pub struct VSketch(pub(crate) crate::sketch::CountMinSketch);
+
+impl VSketch {
+    pub fn new(ctrs: u64) -> Result<Self, crate::CacheError> {
+        crate::sketch::CountMinSketch::new(ctrs).map(VSketch)
+    }
+    pub fn increment(&mut self, h: u64) {
+        self.0.increment(h)
+    }
+    pub fn estimate(&self, h: u64) -> i64 {
+        self.0.estimate(h)
+    }
+    pub fn reset(&mut self) {
+        self.0.reset()
+    }
+    pub fn clear(&mut self) {
+        self.0.clear()
+    }
+    pub fn rows(&self) -> Vec<Vec<u8>> {
+        self.0.verif_rows()
+    }
+    pub fn seeds(&self) -> [u64; 4] {
+        self.0.verif_seeds()
+    }
+    pub fn mask(&self) -> u64 {
+        self.0.verif_mask()
+    }
+}
+
+/// Snapshot of a `TinyLFU`.
+#[derive(Clone, Debug, Default)]
+pub struct TinySnap {
+    pub rows: Vec<Vec<u8>>,
+    pub seeds: [u64; 4],
+    pub mask: u64,
+    pub bloom_words: Vec<u64>,
+    pub bloom_params: (u64, u64, u64, u64),
+    pub samples: usize,
+    pub w: usize,
+}
+
+/// `policy::TinyLFU`
+pub struct VTinyLFU(pub(crate) crate::policy::TinyLFU);
+
+impl VTinyLFU {
+    pub fn new(n: usize) -> Result<Self, crate::CacheError> {
+        crate::policy::TinyLFU::new(n).map(VTinyLFU)
+    }
+    pub fn estimate(&self, h: u64) -> i64 {
+        self.0.estimate(h)
+    }
+    pub fn increment(&mut self, h: u64) {
+        self.0.increment(h)
+    }
+    pub fn increments(&mut self, hs: Vec<u64>) {
+        self.0.increments(hs)
+    }
+    pub fn clear(&mut self) {
+        self.0.clear()
+    }
+    pub fn contains(&self, h: u64) -> bool {
+        self.0.contains(h)
+    }
+    pub fn snapshot(&self) -> TinySnap {
+        self.0.verif_snapshot()
+    }
+}
+
+/// Snapshot of the policy's cost bookkeeping.
+#[derive(Clone, Debug, Default)]
+pub struct PolicySnap {
+    /// (key, cost) sorted by key
+    pub charges: Vec<(u64, i64)>,
+    pub used: i64,
+    pub max_cost: i64,
+    /// iteration order of the cost map right now
+    pub order: Vec<u64>,
+    pub tiny: TinySnap,
+}
+
+#[cfg(feature = "sync")]
+pub use self::sync_facade::*;
+
+#[cfg(feature = "sync")]
+mod sync_facade {
+    use super::*;
+    use crate::cache::sync_verif::{ProcessorStep, VBranch};
+    use crate::policy::LFUPolicy;
+    use crate::store::ShardedMap;
+    use crate::ttl::{ExpirationMap, Time};
+    use crate::{Cache, CacheCallback, Coster, KeyBuilder, UpdateValidator};
+    use std::any::Any;
+    use std::hash::{BuildHasher, Hash};
+    use std::sync::Arc;
+    use std::time::Duration;
+
+    // -----------------------------------------------------------------------------------
+    // parked workers
+    // -----------------------------------------------------------------------------------
+
+    static PARK: AtomicBool = AtomicBool::new(false);
+    static PARKED: StdMutex<Vec<Box<dyn Any + Send>>> = StdMutex::new(Vec::new());
+
+    /// When on, background workers created from now on are parked instead of spawned.
+    pub fn set_parked(on: bool) {
+        PARK.store(on, Ordering::SeqCst);
+    }
+
+    pub(crate) fn parked() -> bool {
+        PARK.load(Ordering::SeqCst)
+    }
+
+    pub(crate) fn park<T: Any + Send>(t: T) {
+        PARKED.lock().unwrap().push(Box::new(t));
+    }
+
+    fn take_parked<T: Any + Send>() -> Option<T> {
+        let mut v = PARKED.lock().unwrap();
+        let pos = v.iter().position(|b| b.is::<T>())?;
+        let b = v.remove(pos);
+        b.downcast::<T>().ok().map(|b| *b)
+    }
+
+    pub use crate::cache::sync_verif::{ItemDesc, ProcessorStep as Step, VBranch as Branch};
+
+    /// The parked cache processor (writing thread) of a sync `Cache`.
+    pub struct ParkedProcessor<V, U, CB, S>(
+        pub(crate) Option<crate::cache::sync_verif::Processor<V, U, CB, S>>,
+    );
+
+    impl<V, U, CB, S> ParkedProcessor<V, U, CB, S>
+    where
+        V: Send + Sync + 'static,
+        U: UpdateValidator<Value = V>,
+        CB: CacheCallback<Value = V>,
+        S: BuildHasher + Clone + 'static + Send + Sync,
+    {
+        /// Take the most recently parked processor of this type.
+        pub fn take() -> Option<Self> {
+            take_parked::<crate::cache::sync_verif::Processor<V, U, CB, S>>()
+                .map(|p| ParkedProcessor(Some(p)))
+        }
+
+        /// Run one iteration of the worker loop taking the given branch.
+        pub fn step<F: Fn(&V) -> u64>(&mut self, b: VBranch, val_id: F) -> ProcessorStep {
+            match self.0.as_mut() {
+                None => ProcessorStep::Exited,
+                Some(p) => {
+                    let r = p.verif_step(b, val_id);
+                    if matches!(r, ProcessorStep::Stopped) {
+                        self.0 = None;
+                    }
+                    r
+                }
+            }
+        }
+
+        pub fn exited(&self) -> bool {
+            self.0.is_none()
+        }
+
+        /// number of items waiting in the insert buffer / clear channel
+        pub fn pending(&self) -> (usize, usize) {
+            match self.0.as_ref() {
+                None => (0, 0),
+                Some(p) => p.verif_pending(),
+            }
+        }
+
+        /// Let the worker run on its own thread from now on (the real loop).
+        pub fn unpark(mut self) {
+            if let Some(p) = self.0.take() {
+                let was = parked();
+                set_parked(false);
+                p.spawn();
+                set_parked(was);
+            }
+        }
+    }
+
+    /// The parked policy worker.
+    pub struct ParkedPolicyWorker<S>(pub(crate) Option<crate::policy::sync_verif::Worker<S>>);
+
+    impl<S: BuildHasher + Clone + 'static + Send> ParkedPolicyWorker<S> {
+        pub fn take() -> Option<Self> {
+            take_parked::<crate::policy::sync_verif::Worker<S>>()
+                .map(|p| ParkedPolicyWorker(Some(p)))
+        }
+
+        /// Returns Some(batch) if a batch was dequeued and applied.
+        pub fn step_items(&mut self) -> Option<Vec<u64>> {
+            self.0.as_mut().and_then(|w| w.verif_step_items())
+        }
+
+        /// Takes the stop branch, waiting up to `timeout` for the stop message.
+        pub fn step_stop(&mut self, timeout: Duration) -> bool {
+            match self.0.as_mut() {
+                None => true,
+                Some(w) => {
+                    if w.verif_step_stop(timeout) {
+                        self.0 = None;
+                        true
+                    } else {
+                        false
+                    }
+                }
+            }
+        }
+
+        pub fn pending(&self) -> usize {
+            self.0.as_ref().map_or(0, |w| w.verif_pending())
+        }
+
+        pub fn exited(&self) -> bool {
+            self.0.is_none()
+        }
+
+        pub fn unpark(mut self) {
+            if let Some(w) = self.0.take() {
+                let was = parked();
+                set_parked(false);
+                w.verif_spawn();
+                set_parked(was);
+            }
+        }
+    }
+
+    // -----------------------------------------------------------------------------------
+    // policy facade
+    // -----------------------------------------------------------------------------------
+
+    /// `policy::LFUPolicy`
+    pub struct VPolicy<S = std::collections::hash_map::RandomState>(pub(crate) Arc<LFUPolicy<S>>);
+
+    impl<S: BuildHasher + Clone + 'static + Send> VPolicy<S> {
+        pub fn with_hasher(ctrs: usize, max_cost: i64, hasher: S) -> Result<Self, crate::CacheError> {
+            LFUPolicy::with_hasher(ctrs, max_cost, hasher).map(|p| VPolicy(Arc::new(p)))
+        }
+        pub fn with_metrics(
+            ctrs: usize,
+            max_cost: i64,
+            hasher: S,
+            metrics: Arc<crate::Metrics>,
+        ) -> Result<Self, crate::CacheError> {
+            let mut p = LFUPolicy::with_hasher(ctrs, max_cost, hasher)?;
+            p.collect_metrics(metrics);
+            Ok(VPolicy(Arc::new(p)))
+        }
+        /// (victims, added); victims = None when the eviction loop was not entered.
+        pub fn add(&self, key: u64, cost: i64) -> (Option<Vec<(u64, i64)>>, bool) {
+            let (v, a) = self.0.add(key, cost);
+            (v.map(|v| v.into_iter().map(|p| (p.key, p.cost)).collect()), a)
+        }
+        pub fn contains(&self, k: u64) -> bool {
+            self.0.contains(&k)
+        }
+        pub fn remove(&self, k: u64) {
+            self.0.remove(&k)
+        }
+        pub fn cap(&self) -> i64 {
+            self.0.cap()
+        }
+        pub fn update(&self, k: u64, cost: i64) {
+            self.0.update(&k, cost)
+        }
+        pub fn cost(&self, k: u64) -> i64 {
+            self.0.cost(&k)
+        }
+        pub fn clear(&self) {
+            self.0.clear()
+        }
+        pub fn max_cost(&self) -> i64 {
+            self.0.max_cost()
+        }
+        pub fn update_max_cost(&self, mc: i64) {
+            self.0.update_max_cost(mc)
+        }
+        pub fn push(&self, keys: Vec<u64>) -> Result<bool, crate::CacheError> {
+            self.0.push(keys)
+        }
+        pub fn close(&self) -> Result<(), crate::CacheError> {
+            self.0.close()
+        }
+        /// Record accesses directly in the admission estimator (what the policy worker does).
+        pub fn record(&self, keys: Vec<u64>) {
+            self.0.inner.lock().verif_admit().increments(keys)
+        }
+        pub fn estimate(&self, k: u64) -> i64 {
+            self.0.inner.lock().verif_admit().estimate(k)
+        }
+        pub fn snapshot(&self) -> PolicySnap {
+            self.0.inner.lock().verif_snapshot()
+        }
+    }
+
+    // -----------------------------------------------------------------------------------
+    // expiration map + store facade
+    // -----------------------------------------------------------------------------------
+
+    /// A `ttl::Time` in plain numbers: (ttl in ns, created-at in ns since the epoch).
+    pub type TimeParts = (u128, u128);
+
+    /// one resident entry: (index, conflict, value id, ttl ns, created ns)
+    pub type StoreEntry = (u64, u64, u64, u128, u128);
+
+    /// Snapshot of a `ShardedMap`.
+    #[derive(Clone, Debug, Default)]
+    pub struct StoreSnap {
+        /// sorted by index
+        pub items: Vec<StoreEntry>,
+        /// (bucket number, sorted [(index, conflict)]) sorted by bucket number
+        pub buckets: Vec<(i64, Vec<(u64, u64)>)>,
+        pub len: usize,
+    }
+
+    /// `ttl::Time`
+    #[derive(Copy, Clone, Debug)]
+    pub struct VTime(pub(crate) Time);
+
+    impl VTime {
+        pub fn now() -> Self {
+            VTime(Time::now())
+        }
+        pub fn now_with_expiration(d: Duration) -> Self {
+            VTime(Time::now_with_expiration(d))
+        }
+        pub fn from_parts(d_ns: u128, created_ns: u128) -> Self {
+            VTime(Time::verif_from_parts(d_ns, created_ns))
+        }
+        pub fn parts(&self) -> TimeParts {
+            self.0.verif_parts()
+        }
+        pub fn is_zero(&self) -> bool {
+            self.0.is_zero()
+        }
+        pub fn is_expired(&self) -> bool {
+            self.0.is_expired()
+        }
+        pub fn get_ttl(&self) -> Duration {
+            self.0.get_ttl()
+        }
+        pub fn storage_bucket(&self) -> i64 {
+            crate::ttl::verif_storage_bucket(self.0)
+        }
+        pub fn cleanup_bucket(&self) -> i64 {
+            crate::ttl::verif_cleanup_bucket(self.0)
+        }
+    }
+
+    /// `store::ShardedMap<u64>` with an arbitrary validator.
+    pub struct VStore<U: UpdateValidator<Value = u64>, S = std::collections::hash_map::RandomState>(
+        pub(crate) Arc<ShardedMap<u64, U, S, S>>,
+    );
+
+    impl<U: UpdateValidator<Value = u64>, S: BuildHasher + Clone + 'static + Send + Sync> VStore<U, S> {
+        pub fn new(validator: U, hasher: S) -> Self {
+            VStore(Arc::new(ShardedMap::with_validator_and_hasher(
+                ExpirationMap::with_hasher(hasher.clone()),
+                validator,
+                hasher,
+            )))
+        }
+        pub fn get(&self, key: u64, conflict: u64) -> Option<(u64, Duration)> {
+            self.0.get(&key, conflict).map(|v| (*v.value(), v.ttl()))
+        }
+        pub fn get_mut_write(&self, key: u64, conflict: u64, new: u64) -> Option<u64> {
+            self.0.get_mut(&key, conflict).map(|mut v| {
+                let old = *v.value();
+                v.write(new);
+                old
+            })
+        }
+        pub fn try_insert(&self, key: u64, val: u64, conflict: u64, exp: VTime) -> bool {
+            self.0.try_insert(key, val, conflict, exp.0).is_ok()
+        }
+        /// 0 = NotExist, 1 = Reject, 2 = Conflict, 3 = Update; with the value handed back.
+        pub fn try_update(&self, key: u64, val: u64, conflict: u64, exp: VTime) -> (u8, u64) {
+            use crate::store::UpdateResult::*;
+            match self.0.try_update(key, val, conflict, exp.0).unwrap() {
+                NotExist(v) => (0, v),
+                Reject(v) => (1, v),
+                Conflict(v) => (2, v),
+                Update(v) => (3, v),
+            }
+        }
+        pub fn try_remove(&self, key: u64, conflict: u64) -> Option<(u64, u64, TimeParts)> {
+            self.0
+                .try_remove(&key, conflict)
+                .unwrap()
+                .map(|s| (s.conflict, s.value.into_inner(), s.expiration.verif_parts()))
+        }
+        pub fn expiration(&self, key: u64) -> Option<TimeParts> {
+            self.0.expiration(&key).map(|t| t.verif_parts())
+        }
+        pub fn len(&self) -> usize {
+            self.0.len()
+        }
+        pub fn clear(&self) {
+            self.0.clear()
+        }
+        pub fn item_size(&self) -> usize {
+            self.0.item_size()
+        }
+        /// the sweep; returns (index, conflict, value, cost) of each reclaimed entry
+        pub fn try_cleanup(&self, policy: &VPolicy<S>) -> Vec<(u64, u64, u64, i64)>
+        where
+            S: Send,
+        {
+            self.0
+                .try_cleanup(policy.0.clone())
+                .unwrap()
+                .into_iter()
+                .map(|i| (i.index, i.conflict, i.val.unwrap(), i.cost))
+                .collect()
+        }
+        pub fn snapshot(&self) -> StoreSnap {
+            self.0.verif_snapshot(|v| *v)
+        }
+    }
+
+    // -----------------------------------------------------------------------------------
+    // cache facade
+    // -----------------------------------------------------------------------------------
+
+    /// Everything observable about a sync `Cache` at one instant.
+    #[derive(Clone, Debug, Default)]
+    pub struct CacheSnap {
+        pub store: StoreSnap,
+        pub policy: PolicySnap,
+        pub ring: Vec<u64>,
+        pub insert_buf_len: usize,
+        pub policy_queue_len: usize,
+        pub closed: bool,
+        pub policy_closed: bool,
+        /// hit miss key-add key-update key-evict cost-add cost-evict drop-sets reject-sets drop-gets keep-gets
+        pub metrics: Option<[u64; 11]>,
+        /// life-expectancy histogram: (count, buckets)
+        pub life: Option<(i64, Vec<i64>)>,
+    }
+
+    pub fn cache_snapshot<K, V, KH, C, U, CB, S, F>(
+        c: &Cache<K, V, KH, C, U, CB, S>,
+        val_id: F,
+    ) -> CacheSnap
+    where
+        K: Hash + Eq,
+        V: Send + Sync + 'static,
+        KH: KeyBuilder<Key = K>,
+        C: Coster<Value = V>,
+        U: UpdateValidator<Value = V>,
+        CB: CacheCallback<Value = V>,
+        S: BuildHasher + Clone + 'static + Send + Sync,
+        F: Fn(&V) -> u64,
+    {
+        CacheSnap {
+            store: c.store.verif_snapshot(val_id),
+            policy: c.policy.inner.lock().verif_snapshot(),
+            ring: c.get_buf.verif_data(),
+            insert_buf_len: c.insert_buf_tx.len(),
+            policy_queue_len: c.policy.items_tx.len(),
+            closed: c.is_closed.load(Ordering::SeqCst),
+            policy_closed: c.policy.is_closed.load(Ordering::SeqCst),
+            metrics: metrics_totals(&c.metrics),
+            life: c.metrics.verif_life(),
+        }
+    }
+
+    pub fn metrics_totals(m: &crate::Metrics) -> Option<[u64; 11]> {
+        if m.is_noop() {
+            return None;
+        }
+        Some([
+            m.get_hits().unwrap(),
+            m.get_misses().unwrap(),
+            m.get_keys_added().unwrap(),
+            m.get_keys_updated().unwrap(),
+            m.get_keys_evicted().unwrap(),
+            m.get_cost_added().unwrap(),
+            m.get_cost_evicted().unwrap(),
+            m.get_sets_dropped().unwrap(),
+            m.get_sets_rejected().unwrap(),
+            m.get_gets_dropped().unwrap(),
+            m.get_gets_kept().unwrap(),
+        ])
+    }
+
+    /// Record accesses directly in the cache's admission estimator.
+    pub fn cache_record<K, V, KH, C, U, CB, S>(c: &Cache<K, V, KH, C, U, CB, S>, keys: Vec<u64>)
+    where
+        S: BuildHasher + Clone + 'static,
+    {
+        c.policy.inner.lock().verif_admit().increments(keys)
+    }
+
+    pub fn cache_estimate<K, V, KH, C, U, CB, S>(c: &Cache<K, V, KH, C, U, CB, S>, key: u64) -> i64
+    where
+        S: BuildHasher + Clone + 'static,
+    {
+        c.policy.inner.lock().verif_admit().estimate(key)
+    }
+
+    pub fn cache_item_size<K, V, KH, C, U, CB, S>(c: &Cache<K, V, KH, C, U, CB, S>) -> usize
+    where
+        V: Send + Sync + 'static,
+        U: UpdateValidator<Value = V>,
+        S: BuildHasher + Clone + 'static,
+    {
+        c.store.item_size()
+    }
+}
